@@ -16,7 +16,9 @@ RULE = ("every genome of <= 3 (thorough: 4) contigs, plus one ignored and one un
         "second stream and the lengths, forbes, jaccard, left_join. Key columns both as identifiers (Interval) and as `str`-typed "
         "ragged columns of a user dataclass (tests/test_multistream.py style), with contig sets where one name is a proper prefix "
         "of the next (chr1/chr10, c/ch/chr, chr1/chr1_alt) and the switch between them inside a chunk as well as on a chunk "
-        "border (every chunk a fresh table). EMPTY chunks (a filtered chunk) at every position of the chunk stream — before "
+        "border (every chunk a fresh table). Documented keywords: grouping on a column other than `chromosome` (group_field=, "
+        "set_grouping_attribute, the groupby column) for tables with TWO contig columns whose `chromosome` column is itself "
+        "compatible with the genome. EMPTY chunks (a filtered chunk) at every position of the chunk stream — before "
         "the data, between contigs, strictly inside a contig's run including the last contig's, at the end — for every consumer. "
         "Multi-step cases: other genome objects derived from / built next to the genome BEFORE the evaluation "
         "(with_ignored_added, more objects over the same dict, sort_names) with the added/unknown name at every position incl. "
@@ -239,8 +241,44 @@ def _str_keyed():
     return _STR_KEYED
 
 
+_MATE = {}
+_CUR_FIELD = None          # (field name, decoy name) when the grouping column is not `chromosome`
+
+
+def _mate_class(key):
+    """a table with TWO contig columns (`chromosome` and `mate_chromosome`), as breakpoint / mate-pair tables have;
+    the synchronisers are asked to group on the second one (`group_field=` / `set_grouping_attribute` / groupby column)"""
+    if key not in _MATE:
+        from bionumpy.bnpdataclass import bnpdataclass
+        if key == "str":
+            @bnpdataclass
+            class MateStr:
+                chromosome: str
+                start: int
+                stop: int
+                mate_chromosome: str
+            _MATE[key] = MateStr
+        else:
+            from bionumpy.typing import SequenceID
+
+            @bnpdataclass
+            class MateId:
+                chromosome: SequenceID
+                start: int
+                stop: int
+                mate_chromosome: SequenceID
+            _MATE[key] = MateId
+    return _MATE[key]
+
+
+def _field():
+    return _CUR_FIELD[0] if _CUR_FIELD else "chromosome"
+
+
 def _table_class():
     from bionumpy.datatypes import Interval
+    if _CUR_FIELD:
+        return _mate_class(_CUR_KEY)
     return _str_keyed() if _CUR_KEY == "str" else Interval
 
 
@@ -251,13 +289,18 @@ def _mk_stream(stream, kind="interval"):
     cls = BedGraph if kind == "bedgraph" else _table_class()
     for ch in _chunks(stream):                     # every chunk is built as a fresh table
         if not ch:                                 # an empty chunk, as produced by filtering a chunk
-            one = BedGraph(["chr1"], [0], [1], [1]) if kind == "bedgraph" else cls(["chr1"], [0], [1])
+            one = BedGraph(["chr1"], [0], [1], [1]) if kind == "bedgraph" else \
+                (cls(["chr1"], [0], [1], ["chr1"]) if _CUR_FIELD else cls(["chr1"], [0], [1]))
             out.append(one[np.array([False])])
             continue
         names = [n for n, _ in ch]
         s = np.array([i for _, i in ch], dtype=int)
         if kind == "bedgraph":
             out.append(BedGraph(names, s, s + 1, s + 1))
+        elif _CUR_FIELD:
+            # the `chromosome` column is a decoy that is itself compatible with the genome; the names under test sit
+            # in `mate_chromosome`
+            out.append(cls([_CUR_FIELD[1]] * len(names), s, s + 1, names))
         else:
             out.append(cls(names, s, s + 1))
     return NpDataclassStream(iter(out), cls)
@@ -373,18 +416,21 @@ class _NoData(Exception):
 def _call(c):
     import bionumpy as bnp
     from bionumpy.datatypes import Interval, BedGraph
-    global _CUR_KEY
+    global _CUR_KEY, _CUR_FIELD
     op = c["op"]
     st = c["streams"]
     _CUR_KEY = c.get("key", "id")
+    _CUR_FIELD = ("mate_chromosome", c["field"]["decoy"]) if c.get("field") else None
     if op == "mem_pair":
         return _mem_pair(c)
     if op == "iter":
-        return {"out": [_ids(t) for t in _ctx(c).iter_chromosomes(_mk_stream(st[0]), _table_class())]}
+        kw = {"group_field": _field()} if _CUR_FIELD else {}
+        return {"out": [_ids(t) for t in _ctx(c).iter_chromosomes(_mk_stream(st[0]), _table_class(), **kw)]}
     if op == "iter_zip":
         ctx = _ctx(c)
-        a = ctx.iter_chromosomes(_mk_stream(st[0]), _table_class())
-        b = ctx.iter_chromosomes(_mk_stream(st[1]), _table_class())
+        kw = {"group_field": _field()} if _CUR_FIELD else {}
+        a = ctx.iter_chromosomes(_mk_stream(st[0]), _table_class(), **kw)
+        b = ctx.iter_chromosomes(_mk_stream(st[1]), _table_class(), **kw)
         return {"rows": [[_ids(x), _ids(y)] for x, y in zip(a, b)]}
     if op == "genome_mask":
         if c.get("source") == "file":
@@ -439,6 +485,8 @@ def _call(c):
         if opt.get("indexed"):
             kw["vals"] = {n: k for k, n in enumerate(c["names"])}
         ms = MultiStream(sizes, **kw)
+        if _CUR_FIELD:
+            ms.a.set_grouping_attribute(_field())
         if opt.get("keyfunc"):
             ms.set_key_functions(a=lambda x: "chr" + x)
         if opt.get("default"):
@@ -449,6 +497,9 @@ def _call(c):
         return {"out": [_ids(t) for t in ms.a]}
     if op == "ms_zip":
         ms = MultiStream(_sizes(c), a=_mk_stream(st[0]), b=_mk_stream(st[1]))
+        if _CUR_FIELD:
+            ms.a.set_grouping_attribute(_field())
+            ms.b.set_grouping_attribute(_field())
         return {"rows": [[_ids(x), _ids(y), [int(l)]] for x, y, l in zip(ms.a, ms.b, ms.lengths)]}
     if op in ("jaccard", "forbes"):
         from bionumpy.arithmetics.similarity_measures import jaccard, forbes
@@ -457,7 +508,7 @@ def _call(c):
     if op == "left_join":
         from bionumpy.streams.left_join import left_join
         from bionumpy.streams import groupby
-        return {"out": [_ids(d) for _, _, d in left_join(_sizes(c).items(), groupby(_mk_stream(st[0]), "chromosome"))]}
+        return {"out": [_ids(d) for _, _, d in left_join(_sizes(c).items(), groupby(_mk_stream(st[0]), _field()))]}
     raise ValueError(op)
 
 
@@ -681,6 +732,23 @@ def cases(tier, rng):
 def _cases_round4(tier, rng):
     big = tier in ("thorough", "widen")
     contigs = ["chr1", "chr2", "chr3"]
+    # documented keywords: grouping on a column other than `chromosome` (group_field= / set_grouping_attribute / the
+    # groupby column) for tables that ALSO have a `chromosome` column whose own values are compatible with the genome
+    for seq in _group_sequences(contigs + [UNK], 3):
+        groups = _with_ids(seq, rng)
+        n_e = sum(len(i) for _, i in groups)
+        for decoy in (["chr1", "chr3"] if big else [rng.choice(["chr1", "chr2", "chr3"])]):
+            for key in ("id", "str"):
+                cuts = rng.choice(_cut_sets(n_e, "quick", rng))
+                s1 = {"groups": groups, "cuts": cuts}
+                fld = {"decoy": decoy}
+                for op in ("iter", "ms", "left_join"):
+                    yield {"names": contigs, "filt": True, "op": op, "streams": [s1], "key": key, "field": fld}
+                if big or rng.random() < 0.3:
+                    other = {"groups": _with_ids([c for c in contigs if rng.random() < 0.6], rng), "cuts": []}
+                    for op in ("iter_zip", "ms_zip"):
+                        yield {"names": contigs, "filt": True, "op": op, "streams": [s1, other], "key": key, "field": fld}
+                        yield {"names": contigs, "filt": True, "op": op, "streams": [other, s1], "key": key, "field": fld}
     # MultiStream variants: ChromosomeSize sizes, an in-memory table as value, key functions, defaults, a dict-like value
     opts = [{"sizes": "chromsize"}, {"value": "table"}, {"keyfunc": True}, {"default": True}, {"indexed": True},
             {"sizes": "chromsize", "value": "table", "keyfunc": True, "default": True, "indexed": True}]
